@@ -82,6 +82,10 @@ PROP_KINDS = {
 }
 
 
+# scenarios that exist for one clause of one property: any deviation on them breaks that property
+PROP_SCENARIOS = {"C08": ("twin-graph",)}
+
+
 def optimize_verdicts(run_, pkg, prop, select, rule_sem=None):
     """Report, for property `prop`, (1) the bounded all-paths translation of optimize() and (2) the typestate findings chosen by
     `select(finding) -> (key, rule) | None`.  When every translated scenario agrees with the reference semantics, a typestate
@@ -90,6 +94,9 @@ def optimize_verdicts(run_, pkg, prop, select, rule_sem=None):
     oa = analyse(pkg)
     kinds = PROP_KINDS[prop]
     sem = oa.semantic
+    all_kinds = {"solve", "pose", "fixed", "stopping", "report", "verbose", "state"}
+    def relevant(x):
+        return bool(x["kinds"] & kinds) or (any(tag in x["name"] for tag in PROP_SCENARIOS.get(prop, ())) and bool(x["kinds"] & all_kinds))
     all_ok = bool(sem) and all(x["status"] == "ok" for x in sem)
     n = 0
     rule_sem = rule_sem or "%s-optimize-semantics" % prop
@@ -100,7 +107,7 @@ def optimize_verdicts(run_, pkg, prop, select, rule_sem=None):
         if x["status"] == "ok":
             n += 1
             run_.ok(key, rule_sem, sample=dict(obligation=key, paths=x["paths"], **x["stats"]))
-        elif x["status"] == "violation" and (x["kinds"] & kinds):
+        elif x["status"] == "violation" and relevant(x):
             n += 1
             parts = [p_ for p_ in x["detail"].split(" || ") if any("[%s]" % k in p_ for k in kinds)] or [x["detail"]]
             run_.violation(key, rule_sem, "optimize() deviates from the reference semantics: " + " || ".join(parts)[:1500], where=x["where"])
@@ -114,7 +121,7 @@ def optimize_verdicts(run_, pkg, prop, select, rule_sem=None):
     if oa.failed:
         if all_ok:
             run_.note("typestate of Graph.optimize not built (%s); decided by the translation alone" % oa.failed)
-        elif not any(x["status"] == "violation" and (x["kinds"] & kinds) for x in sem):
+        elif not any(x["status"] == "violation" and relevant(x) for x in sem):
             run_.error("Graph.optimize: %s; translation: %s" % (oa.failed, "; ".join("%s=%s" % (x["name"], x["status"]) for x in sem if x["status"] != "ok")[:300]))
         return n
     overridden = 0
@@ -129,6 +136,8 @@ def optimize_verdicts(run_, pkg, prop, select, rule_sem=None):
         elif all_ok:
             overridden += 1
             run_.note("typestate finding %s not believed (every translated run of optimize() agrees with the reference semantics): %s" % (key, f.what[:160]))
+        elif getattr(f, "undecided", False):
+            run_.error("%s: %s (and the translation of optimize() is undecided)" % (key, f.what[:200]))
         else:
             n += 1
             run_.violation(key, rule, f.what, where=f.where)
@@ -197,6 +206,8 @@ def report(run_, oa, prefixes):
         n += 1
         if f.ok:
             run_.ok(f.key, f.rule)
+        elif getattr(f, "undecided", False):
+            run_.error("%s: %s" % (f.key, f.what[:200]))
         else:
             run_.violation(f.key, f.rule, f.what, where=f.where)
     return n
@@ -653,11 +664,28 @@ def rules_solve_update(oa):
             dx_vars.add(st.targets[0].id)
         else:
             oa.add("C03-d/solve", "C03-d-solve-and-update", False,
-                   "unrecognised form of the linear solve `%s`" % unp(st)[:100], st)
+                   "unrecognised form of the linear solve `%s`" % unp(st)[:100], st, undecided=True)
         # the system solved is the one assembled from the current poses
         for s in oa.states_at(n):
             oa.add("C03-d/system-current@%s" % s.phase, "C03-d-solve-and-update", ("self._chi2", "CUR") in s.tags and s.sweeps == 0,
                    "the linear system is solved although the poses changed since it was assembled", st)
+    # the step that is applied is the solver's: no statement of optimize() rescales / shifts / clips the step variable
+    for node in ast.walk(oa.fn):
+        tgt = None
+        if isinstance(node, ast.AugAssign):
+            tgt = node.target
+        elif isinstance(node, ast.Assign) and len(node.targets) == 1 and isinstance(node.value, (ast.BinOp, ast.UnaryOp)):
+            tgt = node.targets[0]
+            if neg_of(node.value) is not None and any(n_ for n_ in oa.solve_nodes if oa.role[n_][2] in list(ast.walk(node.value))):
+                tgt = None       # dx = -spsolve(H, b): the sign convention of the solve itself (checked above)
+        base = tgt
+        while isinstance(base, ast.Subscript):
+            base = base.value
+        if isinstance(base, ast.Name) and base.id in dx_vars and not any(cfg.stmt.get(n_) is node for n_ in oa.solve_nodes):
+            if isinstance(node, ast.Assign) and not any(isinstance(x, ast.Name) and x.id in dx_vars for x in ast.walk(node.value)):
+                continue
+            oa.add("C03-d/step-modified@%d" % node.lineno, "C03-d-solve-and-update", False,
+                   "the step returned by the linear solve is modified before it is applied: `%s`" % unp(node)[:90], node)
     n_upd = 0
     for loop in oa.sweep_loops:
         var = loop.target.id if isinstance(loop.target, ast.Name) else None
